@@ -219,7 +219,7 @@ static Scen make(const std::string& s) {
     if (s == "execbaton") return execbaton();
     if (s == "execstay") return execstay(1); if (s == "execstay2") return execstay(2);
     if (s == "mtx2a") return mtx2(0); if (s == "mtx2b") return mtx2(1); if (s == "mtx2c") return mtx2(2); if (s == "mtx2d") return mtx2(3);
-    if (s == "mtx") return mtx(3); if (s == "rwm") return rwm(0); if (s == "rwu") return rwm(1);
+    if (s == "mtx") return mtx(3); if (s == "mtx5") return mtx(5); if (s == "mtx8") return mtx(8); if (s == "rwm") return rwm(0); if (s == "rwu") return rwm(1);
     if (s == "tgwait") return tgwait(2, 2, false); if (s == "tgwait3") return tgwait(3, 3, false); if (s == "tgwaitH") return tgwait(2, 2, true); if (s == "tgwait3H") return tgwait(3, 2, true);
     if (s == "exec1x3") return exec1(3, false); if (s == "exec1x4") return exec1(4, false); if (s == "exec1x3H") return exec1(3, true); if (s == "exec1x4H") return exec1(4, true);
     if (s == "suspF") return suspF(1, false); if (s == "suspF2") return suspF(2, false); if (s == "suspFH") return suspF(1, true); if (s == "suspF2H") return suspF(2, true);
@@ -300,10 +300,37 @@ static int probe_exec() {
     printf("{\"baton\":%d,\"why\":\"%s\"}\n", verdict, why);
     return 0;
 }
+// probe_publish: does every operation that publishes work to an arena through a task stream (task::resume, task_arena::enqueue) ABORT a clear transaction of
+// arena::my_pool_state that is in flight (busy -> SET)?  PoolState.tla needs that fact (constant PUBLISH_GUARDED): a publisher that only acts on an arena that
+// "looks empty" lets the transaction finish, the arena is declared empty with the task in the stream and the last thread goes to sleep.  The state word is
+// set white-box to a busy marker while the arena's only thread sleeps; the publishing call must turn it into SET.
+static int probe_publish() {
+    using vh::rawload; tbb::task_arena ar(2, 2); ar.initialize(); r1::arena* a = rawload(ar.my_arena);
+    static std::atomic<void*> sp; static std::atomic<int> resumed; vh::rawstore(sp, (void*)nullptr); vh::rawstore(resumed, 0);
+    int fact_resume = -1, fact_enqueue = -1;
+    Sched S; focus_only(false); S.stall_limit = 100000000;
+    S.spawn(2, [&](int id) {
+        if (id == 0) { ar.execute([&] { tbb::task_group tg; tg.run([] { tbb::task::suspend([](tbb::task::suspend_point p) { sp.store(p); }); resumed.store(1); }); tg.wait(); }); return; }
+        void* p; while (!(p = sp.load())) cosched::yield_point();
+        hold_until_blocked(0, 400000);                                                    // the arena's only thread sleeps: nobody else touches the state word
+        const std::uintptr_t marker = 0x5a5a50; vh::rawstore(a->my_pool_state.my_state, marker);
+        ar.enqueue([] {});
+        fact_enqueue = rawload(a->my_pool_state.my_state) == 1 ? 1 : 0;
+        hold_until_blocked(0, 400000);
+        vh::rawstore(a->my_pool_state.my_state, marker);
+        tbb::task::resume((tbb::task::suspend_point)p);
+        fact_resume = rawload(a->my_pool_state.my_state) == 1 ? 1 : 0;
+        vh::rawstore(a->my_pool_state.my_state, (std::uintptr_t)0); a->advertise_new_work<r1::arena::wakeup>();    // clean-up: the sleeper was never the owner of a clear transaction - wake it for real
+    });
+    int rc = S.run_random(7, 30000000, 1); S.join_all();
+    printf("{\"resume_aborts_clear\":%d,\"enqueue_aborts_clear\":%d,\"rc\":\"%s\"}\n", fact_resume, fact_enqueue, rc_name(rc).c_str());
+    return 0;
+}
 struct Stats { long paths, steps, stuck, sleeps, wakes, buffered, workers; };
 int main(int argc, char** argv) {
     if (argc >= 2 && !strcmp(argv[1], "probe")) return probe();
     if (argc >= 2 && !strcmp(argv[1], "probe_exec")) return probe_exec();
+    if (argc >= 2 && !strcmp(argv[1], "probe_publish")) return probe_publish();
     if (argc < 6) { fprintf(stderr, "usage\n"); return 2; }
     FILE* out = fopen(argv[1], "w"); std::string sc = argv[2]; int nseeds = atoi(argv[3]); unsigned long seed0 = strtoul(argv[4], nullptr, 10); bool tso = atoi(argv[5]) != 0;
     Stats* st = (Stats*)mmap(nullptr, sizeof(Stats), PROT_READ | PROT_WRITE, MAP_SHARED | MAP_ANONYMOUS, -1, 0); memset(st, 0, sizeof *st);
